@@ -3,6 +3,6 @@ import common
 
 
 def main():
-    common.cargo_build(["write-sim"])
+    common.cargo_build(["write-sim", "own-sim"])
     common.log("setup done")
     return 0
